@@ -154,7 +154,9 @@ class FG:
             # the faulting call sits in the tail position of the procedure entered at trampoline iteration k
             k = r.choice([1, 2, r.randint(3, 6)])
             names = ["t%d" % i for i in range(k)]
-            tailpos = r.choice([lambda c: c, lambda c: [S("if"), True, c, 0], lambda c: [S("if"), False, 0, c]])
+            tailpos = r.choice([lambda c: c, lambda c: [S("if"), True, c, 0], lambda c: [S("if"), False, 0, c],
+                                # ... or an operand of the tail call, between two ticking operands: no operand is evaluated once another one has failed
+                                lambda c: [S("list"), self.tick(11), c, self.tick(12)], lambda c: [S("fr"), self.tick(11), c, self.tick(12), self.tick(13)]])
             for i, n in enumerate(names):
                 body = tailpos(call) if i == k - 1 else [S(names[i + 1])]
                 defs.append([S("define"), [S(n)], self.tick(i), body])
@@ -218,15 +220,25 @@ class FG:
         if escaping:
             # the fault happens inside a procedure that has internal definitions and has let closures of its frame escape by assignment before
             forms.append([S("define"), [S("risky"), S("seed")], [S("define"), S("n"), [S("+"), S("seed"), 1]], [S("define"), [S("peek")], S("n")],
-                          [S("set!"), S("kept"), [S("lambda"), [], [S("list"), S("n"), S("seed")]]], [S("vector-set!"), S("keptv"), 0, S("peek")], [S("list"), fexpr, S("n")]])
+                          [S("set!"), S("kept"), [S("lambda"), [], [S("list"), S("n"), S("seed")]]], [S("vector-set!"), S("keptv"), 0, S("peek")]]
+                         # the fault is met in an operand of the tail call, or in a body form before the last one, or inside a let whose variables a kept closure reads too
+                         + r.choice([[[S("list"), fexpr, S("n")]], [fexpr, [S("list"), 0, S("n")]], [[S("if"), fexpr, 1, 2], S("n")],
+                                     [[S("let"), [[S("m"), [S("*"), S("n"), 2]]], [S("set!"), S("kept"), [S("lambda"), [], [S("list"), S("n"), S("seed"), S("m")]]], fexpr, S("m")], S("n")]]))
             fexpr = [S("risky"), r.randint(10, 90)]
         u1, u2, u3 = r.randint(100, 199), r.randint(200, 299), r.randint(300, 399)
         forms.append([S("define"), S("before"), u1])
         # effects completed before the fault stay, effects after it never happen
         pre_eff = [[S("set!"), S("g1"), u2], [S("vector-set!"), S("vv"), 0, u3], self.tick(77)]
         post_eff = [[S("set!"), S("g1"), -1], [S("vector-set!"), S("vv"), 1, -1], self.tick(78)]
-        style = r.randrange(3)
-        if style == 0:
+        style = r.randrange(5)
+        extra = []          # indices of further forms that must fail (reads of names a failed definition / assignment must not have bound)
+        if style == 3:
+            # the fault is met while the value of a definition of a NEW name is computed: the name stays unbound
+            faulting = [S("define"), S("zfresh"), [S("list"), [S("begin")] + pre_eff + [0], fexpr, [S("begin")] + post_eff]]
+        elif style == 4:
+            # ... or of a name that is bound already: it keeps its value
+            faulting = [S("define"), S("before"), [S("list"), [S("begin")] + pre_eff + [0], fexpr, [S("begin")] + post_eff]]
+        elif style == 0:
             faulting = [S("begin")] + pre_eff + [fexpr] + post_eff
         elif style == 1:
             faulting = [[S("lambda"), [S("a"), S("b"), S("c")], S("b")]] + [[S("begin")] + pre_eff + [1], fexpr, [S("begin")] + post_eff + [3]]
@@ -235,6 +247,14 @@ class FG:
         forms.append(faulting)
         fault_index = len(forms) - 1
         forms.append([S("list"), S("g1"), [S("vector-ref"), S("vv"), 0], [S("vector-ref"), S("vv"), 1], S("before")])
+        if style == 3:
+            forms.append(S("zfresh")); extra.append(len(forms) - 1)
+            forms.append([S("set!"), S("zfresh"), 1]); extra.append(len(forms) - 1)
+        if fault in ("unbound-set", "unbound-read") and r.random() < 0.6:
+            # the variable that could not be read or assigned is still unbound afterwards: reading and assigning it fail again
+            forms.append(S("no-such-variable")); extra.append(len(forms) - 1)
+            forms.append([S("set!"), S("no-such-variable"), 2]); extra.append(len(forms) - 1)
+            forms.append([S("list"), S("no-such-variable")]); extra.append(len(forms) - 1)
         if escaping:
             forms.append(parse("(list (kept) ((vector-ref keptv 0)))"))
         forms.append(parse("(f2 (f0) (car (fr 1 2)))"))
@@ -243,6 +263,7 @@ class FG:
         # calibration: the same kind of direct non-procedure call, so that the order of operand evaluation vs. the check is one consistent strategy
         forms.append([5, self.tick(1)])
         forms.append(parse("(vector-ref vv 0)"))
+        self.extra_errors = extra
         return forms, fault_index
 
 
@@ -271,7 +292,7 @@ def run(tier, seed):
                     ctx.count("generated_discarded"); continue
                 # exactly the intended fault kind at the intended form, and the calibration fault; nothing else
                 errs = [i for i, e in enumerate(exp) if e[0] == "err"]
-                if errs != [fi, len(forms) - 2]:
+                if errs != sorted([fi, len(forms) - 2] + g.extra_errors):
                     ctx.count("generated_discarded"); continue
                 progs.append((f, c, forms, fi)); n += 1
     cell_hits = {}
